@@ -299,6 +299,12 @@ pub fn check(sc: &ConnScenario, out: &ConnOutcome, rep: &mut RunReport) {
         if is_timeout && t == pt {
             rep.violate("prompt_client_never_dropped", format!("the timeout Disconnect was written at {t} ns, the very instant Keep Alive {pid:#x} was sent: no client can echo in no time"));
         }
+        // "before the next is due": the protocol gives a client 15 s to answer a Keep Alive (the period has to lie
+        // between 15 and 20 s for that reason), so a timeout that comes sooner after the Keep Alive it refers to
+        // drops clients that did nothing wrong - e.g. when the first Keep Alive of the phase is sent off the grid
+        if is_timeout && t > pt && t - pt < secs(15) {
+            rep.violate("echo_window_shorter_than_the_protocol_allows", format!("Keep Alive {pid:#x} was sent at {pt} ns and the client was timed out at {t} ns, {} ms later: a client has 15 s to echo", (t - pt) / 1_000_000));
+        }
         if echoed && is_timeout {
             rep.violate("prompt_client_never_dropped", format!("Keep Alive {pid:#x} sent at {pt} was echoed before {t}, yet the client was timed out at {t}"));
         }
@@ -369,6 +375,7 @@ impl Check for C07 {
     fn assumptions(&self) -> Vec<String> {
         vec![
             "exact ties between a tick and an echo / service completion are excluded by construction (the property does not decide them)".into(),
+            "'before the next is due' is read with the protocol's response time: a timeout less than 15 s after the Keep Alive it refers to is a violation (the tick phase itself is not hard-coded)".into(),
             "transport is instantaneous in this check, so client receive time = server write time".into(),
         ]
     }
